@@ -1,16 +1,9 @@
 import SaoVerif.Model.Blocks
 import SaoVerif.Model.Staking
 import SaoVerif.Model.DidM
+import SaoVerif.Model.Faults
 /-! The operation alphabet and `step`. -/
 namespace SaoVerif
-
-structure FaultIn where
-  dataId : Bytes
-  orderId : Nat
-  shardId : Nat
-  commitId : Bytes
-  provider : Addr
-  deriving Repr, Inhabited
 
 inductive Op where
   | advance (to : Int) (seed : Nat)
@@ -29,6 +22,8 @@ inductive Op where
   | renew (creator msgProvider : Addr) (sigValid : Bool) (sigDid : Did) (duration : Nat) (timeout : Int) (data : List Bytes)
   | migrate (creator msgProvider : Addr) (data : List Bytes)
   | perm (creator msgProvider : Addr) (owner : Did) (dataId : Bytes) (ro rw : List Did) (sigValid : Bool)
+  | report (creator msgProvider : Addr) (faults : List FaultIn) (newIds : List StrId)
+  | recover (creator msgProvider : Addr) (faults : List FaultIn) (insuranceKey : Nat)
   | payaddr (m : PayAddrMsg)
   | binding (m : BindingMsg)
   | didupdate (m : DidUpdateMsg)
@@ -74,6 +69,8 @@ def stepC (e : Env) (s : State) : Op → Res × State
   | .renew c p sv sd du t data => atomic s ((saoRenew e s c p sv sd du t data).map (·.1))
   | .migrate c p data => atomic s (saoMigrate s c p data)
   | .perm c p ow d ro rw sv => atomic s (saoPermission s c p ow d ro rw sv)
+  | .report c p fs ids => atomic s (saoReportFaults s c p fs ids)
+  | .recover c p fs ik => atomic s (saoRecoverFaults s c p fs ik)
   | .payaddr m => atomic s (didUpdatePaymentAddress s m)
   | .binding m => atomic s (didBinding s m)
   | .didupdate m => atomic s (didUpdate s m)
